@@ -1,10 +1,10 @@
 package main
 
 import (
-	"regexp"
 	"fmt"
 	"go/token"
 	"go/types"
+	"regexp"
 	"sort"
 	"strings"
 
@@ -749,6 +749,24 @@ func (vc *FnVC) applyCallGhostsX(name string, args, results []TV, m *Mem, extra 
 func (vc *FnVC) blockResolver(b *ssa.BasicBlock, m *Mem) func(string) (TV, bool) {
 	limit := vc.curIdx
 	return func(name string) (TV, bool) {
+		if name == "rangekey" {
+			// the key of the innermost enclosing map-range iteration (also when the source names no key variable)
+			for d := b; d != nil; d = d.Idom() {
+				for i := len(d.Instrs) - 1; i >= 0; i-- {
+					if d == b && i >= limit {
+						continue
+					}
+					if nx, ok := d.Instrs[i].(*ssa.Next); ok && !nx.IsString {
+						if tup, ok := vc.tuples[nx]; ok && len(tup) == 3 {
+							if r, ok := nx.Iter.(*ssa.Range); ok {
+								return TV{t: tup[1], ty: r.X.Type().Underlying().(*types.Map).Key()}, true
+							}
+						}
+					}
+				}
+			}
+			return TV{}, false
+		}
 		for d := b; d != nil; d = d.Idom() {
 			binds := vc.debug[d]
 			for i := len(binds) - 1; i >= 0; i-- {
